@@ -127,15 +127,19 @@ def run(ctx, mod, t0):
         thms += [{"name": "FsDb.Tie.tie_" + t, "axioms": [], "kind": "tie (rfl)"} for t in ties]
         if bad:
             raise C.MachineryError("audit: " + "; ".join(bad))
-    # 4. correspondence (and, after a break, the search)
+    # 4. correspondence (and, after a break, the search).  Violations that are open known findings do not
+    #    count as "a failing input was found" for a broken obligation: they are there on the unchanged tree too.
+    known = C.known_findings(prop)
+    is_known = lambda v: any(e["id"] == v.signature for e in known)
     res = mod.correspond(ctx)
     violations = list(res.get("violations", []))
-    if obligations_broken and not violations and hasattr(mod, "search"):
+    if obligations_broken and not [v for v in violations if not is_known(v)] and hasattr(mod, "search"):
         ctx.note("searching for a failing input after broken obligation")
         res2 = mod.search(ctx)
-        violations += res2.get("violations", [])
+        seen = set(v.signature for v in violations)
+        violations += [v for v in res2.get("violations", []) if v.signature not in seen]
         res.setdefault("coverage", {})["search"] = res2.get("coverage", {})
-    if obligations_broken and not violations:
+    if obligations_broken and not [v for v in violations if not is_known(v)]:
         payload = {"property": prop, "kind": "broken-obligation", "no_failing_input_found": True,
                    "broken": obligations_broken, "lake_log_tail": out[-6000:],
                    "repo": C.repo_head(), "tier": ctx.tier, "seed": ctx.seed}
@@ -143,11 +147,9 @@ def run(ctx, mod, t0):
         violations.append(Violation("obligation", "theorem/tie no longer checks: %s" % obligations_broken,
                                     rp, found_input=False))
     # 5. known findings
-    known = C.known_findings(prop)
     reported, matched = [], []
     for v in violations:
-        k = [e for e in known if e["id"] == v.signature]
-        if k:
+        if is_known(v):
             matched.append(v)
         else:
             reported.append(v)
